@@ -166,19 +166,21 @@ inline ParsedVol parseVolStrict(const std::vector<uint8_t>& v)
 	}
 	if (expectName != SL) return fail("names use " + std::to_string(expectName) + " bytes, table says " + std::to_string(SL));
 	if (expectBlock != v.size()) return fail("last block ends at " + std::to_string(expectBlock) + ", file has " + std::to_string(v.size()) + " bytes");
-	// binary-search order under either folding
+	// binary-search order: "case-insensitive" is taken in the strcasecmp/_stricmp sense (fold to lower case), the
+	// order a consumer's binary search uses; an order that is ascending only under upper-case folding (differs for
+	// '_' '[' '\\' ']' '^' '`' against letters) is not accepted
 	p.sortedLower = p.sortedUpper = true;
 	for (std::size_t i = 1; i < p.entries.size(); ++i) {
 		if (cmpFold(p.entries[i - 1].name, p.entries[i].name, true) >= 0) p.sortedLower = false;
 		if (cmpFold(p.entries[i - 1].name, p.entries[i].name, false) >= 0) p.sortedUpper = false;
 	}
-	if (!p.sortedLower && !p.sortedUpper) return fail("entries not in strictly ascending case-insensitive order");
+	if (!p.sortedLower) return fail(p.sortedUpper ? "entries ascending only under upper-case folding, not in strcasecmp (lower-case folding) order" : "entries not in strictly ascending case-insensitive order");
 	// reference binary search finds every member
 	for (std::size_t t = 0; t < p.entries.size(); ++t) {
 		std::size_t lo = 0, hi = p.entries.size(); bool found = false;
 		while (lo < hi) {
 			std::size_t mid = (lo + hi) / 2;
-			int c = cmpFold(p.entries[t].name, p.entries[mid].name, p.sortedLower);
+			int c = cmpFold(p.entries[t].name, p.entries[mid].name, true);
 			if (c == 0) { found = mid == t; break; }
 			if (c < 0) hi = mid; else lo = mid + 1;
 		}
